@@ -127,3 +127,9 @@ Definition normalize_run (r : run_in) : run_in :=
   {| ri_lazy := ri_lazy r; ri_file := normalize_file (ri_file r); ri_rxs := ri_rxs r; ri_tbl := ri_tbl r; ri_supplied := ri_supplied r;
      ri_smatches := real_smatches r; ri_lmatches := ri_lmatches r |}.
 Definition run_idx_agreeb (r : run_in) : bool := idx_agreeb (ri_file r) (ri_smatches r) (ri_lmatches r).
+
+(* drop-in verdicts for the streams that emit a full `run_in` (both_verdict, c11/c15/c20 verdicts): code 95 = the recorded strict and merged-query
+   matches do not satisfy `idx_agreeb` (A1–A3 on the recorded data), i.e. the `.._real_partial` theorems of Props/C02.v / C08.v would not apply to the case.
+   NOT wired into the streams: the harness prints `both_verdict ..` itself (harness/src/streams.rs), and the LAZY stream records no per-stanza matches. *)
+Definition with_idx_check (r : run_in) (verdict : N) : N := if run_idx_agreeb r then verdict else 95.
+Definition both_verdict_idx (t : tree) (r : run_in) (xs xl : expect) : N := with_idx_check r (both_verdict t r xs xl).
